@@ -1,0 +1,64 @@
+//go:build verif
+
+package agent
+
+import (
+	"log"
+
+	"github.com/hashicorp/serf/serf"
+)
+
+// This file is only compiled with the "verif" build tag. It adds accessors
+// for the external verification harness; it contains no logic of its own.
+
+// VerifFilterMembers gives direct access to the member filter used by the
+// members-filtered RPC.
+func (i *AgentIPC) VerifFilterMembers(members []serf.Member, tags map[string]string,
+	status string, name string) ([]serf.Member, error) {
+	return i.filterMembers(members, tags, status, name)
+}
+
+// VerifFilterMembers is the same filter without an IPC instance (the method
+// does not use its receiver's state).
+func VerifFilterMembers(members []serf.Member, tags map[string]string,
+	status string, name string) ([]serf.Member, error) {
+	return (&AgentIPC{}).filterMembers(members, tags, status, name)
+}
+
+// VerifInvokeEventScript runs the real script invocation.
+func VerifInvokeEventScript(logger *log.Logger, script string, self serf.Member, event serf.Event) error {
+	return invokeEventScript(logger, script, self, event)
+}
+
+// Wire records, re-exported for decoding what the agent sends.
+type (
+	VerifRequestHeader    = requestHeader
+	VerifResponseHeader   = responseHeader
+	VerifQueryRecord      = queryRecord
+	VerifUserEventRecord  = userEventRecord
+	VerifQueryEventRecord = queryEventRecord
+	VerifMemberEventRec   = memberEventRecord
+	VerifLogRecord        = logRecord
+)
+
+// VerifStreamClient is the sink the agent's streams write to.
+type VerifStreamClient interface {
+	Send(*VerifResponseHeader, any) error
+	RegisterQuery(*serf.Query) uint64
+}
+
+// VerifNewEventStream builds the agent's real event stream on a harness sink.
+// The returned handler receives events; stop closes it.
+func VerifNewEventStream(client VerifStreamClient, filters []EventFilter, seq uint64, logger *log.Logger) (handler EventHandler, stop func()) {
+	es := newEventStream(client, filters, seq, logger)
+	return es, es.Stop
+}
+
+// VerifStreamQueryResponse runs the agent's real query result loop on a
+// harness sink until it returns.
+func VerifStreamQueryResponse(client VerifStreamClient, seq uint64, logger *log.Logger, resp *serf.QueryResponse) {
+	newQueryResponseStream(client, seq, logger).Stream(resp)
+}
+
+// VerifLogWriter names the unexported log writer type returned by NewLogWriter.
+type VerifLogWriter = logWriter
